@@ -19,6 +19,10 @@ that are blank everywhere else; configurations are compared *by head-relative vi
         at the first final configuration, RejectionException when the tree is exhausted;
   TRIPLE the same deterministic table as DTM, as NTM and as 1-tape MNTM: equal verdicts
         whenever decided within the budget, equal to the textbook verdict.
+  DEEP  (round 6, harness/tm_deep.py) runs of 1000–4100 steps / over 3000 cells / 2000 cells to the left of
+        the start cell by machines with closed-form behaviour, as DTM, NTM and 1-tape MNTM: every step against
+        an in-place textbook run, verdict / number of yields / final configuration / accepts_input against
+        the closed form and against each other.  Real code vs. reference only (no model call).
 """
 from __future__ import annotations
 
@@ -31,8 +35,9 @@ from automata.tm.mntm import MNTM
 from automata.tm.ntm import NTM
 
 from harness import enc_tm as E
+from harness import tm_deep as TD
 from harness import tm_long as TL
-from harness.common import Ctx, call, toks
+from harness.common import Ctx, InfraError, call, toks
 
 LEVEL = "proof"
 RULE = ("cases = (valid DTM / NTM / MNTM, input, number n of next() calls); corpus (F11 trigger, "
@@ -44,7 +49,12 @@ RULE = ("cases = (valid DTM / NTM / MNTM, input, number n of next() calls); corp
         "whose breadth-first frontier exceeds 8192 pending configurations (real run vs. reference only) "
         ", long tapes (inputs of 62–300 symbols: zig-zag programs sweeping to the far right, off the right end, back "
         "over the whole tape and off the left end, as DTM / NTM (also branching) / 1-tape MNTM, a 2-tape copy-and-return "
-        "machine, shuttles that grow a 50–62-cell tape past 64 cells at both ends) "
+        "machine, shuttles that grow a 50–62-cell tape past 64 cells at both ends), "
+        "long runs (machines with closed-form behaviour run for 1000–4100 steps: the library's 0^n1^n machine on "
+        "n = 23–42 and on n/n±1, a binary counter on 8–10 cells that ends left of the start cell, a sweep over an input "
+        "of 1500–3100 symbols, a walk of 2000+ cells into the blank region on the left observed through a budget, each "
+        "as DTM, as NTM and as 1-tape MNTM; a nondeterministic walk with a frontier of two over 1000–1400 levels; real "
+        "run vs. in-place reference and closed form only) "
         "and mutated invalid definitions for validate(); a case is "
         "non-trivial when at least 3 configurations are yielded; distinct = distinct (kind, definition, "
         "input, n)")
@@ -56,7 +66,8 @@ ASSUMPTIONS = [
 EXPLANATION = ("Theorems C03_* state step-by-step faithfulness of the model w.r.t. the transition relation on "
                "blank-extended (head-relative) tapes for every machine, input and step count; this run ties "
                "the model to the code by differential execution and re-evaluates the property on the real "
-               "code with a textbook interpreter.")
+               "code with a textbook interpreter; runs of thousands of steps / cells (size thresholds of the run: "
+               "recursion depth, tape copies, left growth) are judged against closed-form answers.")
 
 DRV = "drv_tm"
 
@@ -569,6 +580,97 @@ def long_tapes(ctx: Ctx):
             check_mntm(ctx, E.mntm1_from(kw, table), w, n, "long_tape_shuttle")
 
 
+# ------------------------------------------------------------------ long runs (round 6)
+def _stat_bucket(ctx: Ctx, prefix: str, v: int, edges=(1000, 2000, 3000, 4000)):
+    lo = 0
+    for e in edges:
+        if v < e:
+            ctx.stat(f"{prefix}_{lo}-{e - 1}")
+            return
+        lo = e
+    ctx.stat(f"{prefix}_{lo}+")
+
+
+def check_deep(ctx: Ctx, sp: "TD.Spec", origin: str) -> bool:
+    """One closed-form case of harness/tm_deep.py: the table as DTM / NTM / 1-tape MNTM (the nondeterministic
+    family: NTM / MNTM), each driven to its end (or through the budget) on the real code.  Judged by the in-place
+    textbook run at every step, by the closed form (verdict, number of yields, final configuration) and against
+    each other; `accepts_input` must give the closed-form verdict.  No model round trip: the answers are known.
+    Every complaint comes from calls into the library made here, so the replay (family + parameters) re-runs
+    exactly this.  Returns True when the case held."""
+    if E.skip(ctx):
+        return False
+    TD.verify_closed_form(sp)          # InfraError if this harness' own closed form is wrong
+    ctx.stat(origin)
+    ctx.stat("long_run_family_" + sp.family)
+    ctx.stat("long_run_no_model_round_trip")
+    ctx.stat("long_run_closed_form_" + sp.verdict)
+    _stat_bucket(ctx, "long_run_steps", sp.steps)
+    results = {}
+    held = True
+    for cls, m in TD.machines(sp):
+        ctx.case(("DEEP", sp.family, tuple(sorted(sp.params.items())), cls))
+        ctx.stat("long_run_as_" + cls)
+        wrong, info = TD.judge(sp, cls, m)
+        _stat_bucket(ctx, "long_run_yields", info["count"])
+        _stat_bucket(ctx, "long_run_stored_tape_cells", info["maxlen"], (100, 1000, 2000, 3000))
+        if info["minpos"] <= -1000:
+            ctx.stat("long_run_head_1000+_cells_left_of_cell0")
+        elif info["minpos"] < 0:
+            ctx.stat("long_run_head_left_of_cell0")
+        if info.get("maxlevel", 0) >= 2:
+            ctx.stat("long_run_frontier_of_2")
+        if sp.verdict != "running" and not any("HarnessTimeout" in x for x in wrong):
+            acc = TD.safe_accepts(m, sp.word)
+            if acc != ("ok", sp.verdict == "accept"):
+                wrong.append(f"accepts_input = {acc}, closed-form verdict {sp.verdict}")
+        results[cls] = (E.verdict_of(info["end"]), info["count"])
+        if wrong:
+            held = False
+            ctx.prop_fail(f"{cls} {sp.label()} on {_short(sp.word)} (closed form: {sp.verdict} after {sp.steps} steps): "
+                          + "; ".join(wrong[:3]), dict(sp.replay(), machine=repr(m) if len(sp.word) < 200 else cls,
+                                                       cls=cls), None)
+    # against each other (implied by the closed form; said separately so that the evidence shows the triple)
+    if held and len({v for v, _c in results.values()}) != 1:
+        held = False
+        ctx.prop_fail(f"{sp.label()}: verdicts differ: {results}", dict(sp.replay(), cls="all"), None)
+    if ctx.evaluations % 7 == 0:
+        ctx.sample(dict(kind="DEEP", case=sp.label(), closed_form=dict(verdict=sp.verdict, steps=sp.steps,
+                        state=repr(sp.state), head=sp.head, nonblank_cells=len(sp.cells)), observed=results))
+    return held
+
+
+def _selftest_branching(ctx: Ctx):
+    """The closed-form levels of the nondeterministic family against the generic textbook level oracle of this
+    module on a small instance (a disagreement is a defect of the harness)."""
+    for accept in (True, False):
+        sp = TD.branchy_walk(5, accept)
+        oys, oend = oracle_ntm(E.ntm_from_lists(sp.kw, sp.lists), sp.word, 12)
+        want = [{(s, TD.view(h, c, sp.blank)) for (s, h, c) in sp.level(j)} for j in range(sp.depth + 1)]
+        if not accept:
+            want.append(set())
+        if oys != want or oend != TD.expected_end(sp) or len(oys) != TD.expected_yields(sp, "NTM"):
+            raise InfraError("tm_deep.branchy_walk: closed-form levels disagree with the textbook level oracle")
+
+
+def long_runs(ctx: Ctx):
+    """Size thresholds of the run (round 6): thousands of steps, thousands of cells, far left of the start cell."""
+    _selftest_branching(ctx)
+    specs = TD.plan(ctx.rng, ctx.thorough())
+    for i, sp in enumerate(specs):
+        held = check_deep(ctx, sp, "long_runs")
+        if i == 0 and held:
+            # the documentation machine on 23–30 pairs (1100–1900 configurations) once more through the usual
+            # checks: cell-by-cell comparison with the Lean model at more than a thousand next() calls
+            n = sp.steps + 3
+            check_dtm(ctx, E.dtm_from(sp.kw, sp.table), sp.word, n, "long_runs_model_round_trip")
+            check_ntm(ctx, E.ntm_from(sp.kw, sp.table), sp.word, n, "long_runs_model_round_trip")
+            check_mntm(ctx, E.mntm1_from(sp.kw, sp.table), sp.word, n, "long_runs_model_round_trip")
+            check_triple(ctx, sp.kw, sp.table, sp.word, n, "long_runs_model_round_trip")
+        elif i == 0:
+            ctx.stat("long_runs_model_round_trip_skipped_after_failure")
+
+
 # ------------------------------------------------------------------ validation stream
 def _mutate(rng, kind, kw):
     """One random defect in the constructor arguments (dict kw is modified in place)."""
@@ -843,6 +945,8 @@ def run(ctx: Ctx):
     validation_stream(ctx, ctx.budget(1000, 12000))
     # 4. long tapes (after the other families: their case streams are unchanged)
     long_tapes(ctx)
+    # 5. long runs (round 6; last, the older case streams are unchanged)
+    long_runs(ctx)
     E.report_watchdog(ctx)
 
 
@@ -851,6 +955,9 @@ def replay(ctx: Ctx, path: str) -> int:
     rp = data.get("replay", data)
     env = {"DTM": DTM, "NTM": NTM, "MNTM": MNTM, "frozenset": frozenset}
     kind = rp["kind"]
+    if kind == "DEEP":
+        check_deep(ctx, TD.build(rp["family"], rp["params"]), "replay")
+        return _replay_verdict(ctx, path)
     old = global_config.should_validate_automata
     global_config.should_validate_automata = kind != "VALIDATE"
     try:
@@ -871,6 +978,10 @@ def replay(ctx: Ctx, path: str) -> int:
         check_triple(ctx, kw, {q: dict(r) for q, r in m.transitions.items()}, rp["word"], rp["n"], "replay")
     elif kind == "VALIDATE":
         check_validate(ctx, rp["cls"], m, "replay")
+    return _replay_verdict(ctx, path)
+
+
+def _replay_verdict(ctx: Ctx, path: str) -> int:
     if ctx.prop_fails:
         print(f"VIOLATION property=C03 replay={path}")
         print("  " + ctx.prop_fails[0]["what"])
